@@ -43,6 +43,8 @@ MUTANTS = [
     ("vt.contracts.processor_nodes", "contract_nodes", "cotengra/pathfinders/path_basic.py", "        self.ssa_path.append((i, j))", "        self.ssa_path.append((i, i))"),
     ("vt.contracts.processor_nodes", "add_node", "cotengra/pathfinders/path_basic.py", "        self.ssa += 1\n        self.nodes[i] = legs", "        self.nodes[i] = legs"),
     ("vt.contracts.processor_nodes", "pop_node", "cotengra/pathfinders/path_basic.py", "        legs = self.nodes.pop(i)", "        legs = self.nodes[i]"),
+    # C06 slice_arrays: the section is taken from another input
+    ("vt.contracts.slice_arrays", "slice_arrays", "cotengra/core.py", "            temp_arrays[c] = temp_arrays[c][selector]", "            temp_arrays[c] = temp_arrays[0][selector]"),
     # C09 DP step: the seeded early sieve on the children's scores, a table update that can make an entry worse, a lost update
     ("vt.contracts.dp_step", "optimize_optimal_connected", "cotengra/pathfinders/path_basic.py", "                        # do sorted simultaneous iteration over ilegs and jlegs", "                        if iscore + jscore > cost_cap:\n                            continue"),
     ("vt.contracts.dp_step", "optimize_optimal_connected", "cotengra/pathfinders/path_basic.py", "if (current is None) or (new_score < current[1]):", "if True:"),
